@@ -75,6 +75,9 @@ var c17MetaTable = []c17MetaOpt{
 	{"--ghost", []string{"type", "search"}},
 	{"--marker-multi-line", []string{"╻┃╹", "abc"}},
 	{"--gap-line", []string{"-", "="}},
+	// a value that begins with a base scheme replaces the whole theme, so the earlier occurrence leaves no trace
+	{"--color", []string{"dark", "light,fg:red", "16,hl:bold:underline", "bw", "dark,fg:regular:blue,bg:-1", "light,hl+:#ff00ff:italic,fg:underline",
+		"bw,fg:bold", "16,fg:regular"}},
 }
 
 var c17MetaFlags = []string{"--border", "--no-border", "--preview-window=default", "--preview-window=right,40%", "--preview-window=hidden",
@@ -86,7 +89,8 @@ var c17MetaFlags = []string{"--border", "--no-border", "--preview-window=default
 	"--print-query", "--print0", "--read0", "--select-1", "--exit-0", "--highlight-line", "--no-highlight-line", "--no-preview", "--no-header",
 	"--no-header-lines", "--no-tail", "--no-gap", "--gap", "--no-gap-line", "--gap-line", "--filepath-word", "--literal", "--no-literal", "-i", "+i", "--smart-case",
 	"--disabled", "--enabled", "--no-input", "--no-clear", "--clear", "--ambidouble", "--no-ambidouble", "--no-list-label", "--no-input-label",
-	"--no-header-label", "--no-border-label", "--no-preview-label", "--no-info-command", "--style=full", "--style=minimal", "--style=default"}
+	"--no-header-label", "--no-border-label", "--no-preview-label", "--no-info-command", "--style=full", "--style=minimal", "--style=default",
+	"--no-color", "--color=fg:italic,hl:regular", "--color=bg:7"}
 
 func c17MetaCtx(r *RNG, n int) []string {
 	out := []string{}
